@@ -79,7 +79,19 @@ func c13Proxied(r *ev.Result, w *c13World, id func() string) {
 		dt.CloseIdleConnections()
 	}()
 	n := 0
-	for _, c := range []c13Call{{"A", "pinA"}, {"B", "pinA"}, {"B", "pinB"}, {"A", "pinB"}, {"I", "pinA"}, {"C", "pinA"}, {"C", "pinB"}} {
+	calls := []c13Call{{Server: "A", Pin: "pinA"}, {Server: "B", Pin: "pinA"}, {Server: "B", Pin: "pinB"}, {Server: "A", Pin: "pinB"}, {Server: "I", Pin: "pinA"}, {Server: "C", Pin: "pinA"}, {Server: "C", Pin: "pinB"}}
+	/* With every server ordinarily trusted, the pin is all that stands
+	between a call and the wrong server: however the URL spells its scheme,
+	and a malformed fingerprint is still refused outright. */
+	for _, sch := range []string{"HTTPS", "Https", "hTTps"} {
+		calls = append(calls, c13Call{Server: "A", Pin: "pinA", Scheme: sch}, c13Call{Server: "B", Pin: "pinA", Scheme: sch}, c13Call{Server: "A", Pin: "not-base64", Scheme: sch})
+	}
+	for pc := range w.pins {
+		if _, pinned := w.pinKey[pc]; !pinned && "none" != pc {
+			calls = append(calls, c13Call{Server: "A", Pin: pc}, c13Call{Server: "B", Pin: pc})
+		}
+	}
+	for _, c := range calls {
 		i := id()
 		vd, err, sh := w.run(c, i, nil)
 		w.judge(r, "default transport set to use a proxy and to trust every server's certificate", map[string]any{"calls": []c13Call{c}, "proxied": true}, c, i, vd, err, sh)
